@@ -30,6 +30,7 @@ namespace {
 // kinds: 0 A records (compressed names) 1 CNAME+A 2 unknown type+A 3 rcode3 4 rcode2 5 rcode5 6 rcode1
 //        7 truncated at arg 8 inflated an_count 9 pointer loop 10 forward pointer 11 pointer outside 12 random bytes (right id)
 //        13 wrong id 14 query instead of response 15 tiny datagram (arg bytes, 0..3) 16 chain of pointers
+//        18 good A records, then an A record with RDLENGTH 0-3 at the very end   19 an A record with RDLENGTH 5-8, then good ones
 //        17 a label followed by a pointer back to that label (a loop that every single pointer check 'target lies before me' accepts)
 void generate(sim::Rng &r, uint64_t seed, const std::string &tier, sim::Plan &p) {
   bool thorough = tier == "thorough";
@@ -48,7 +49,7 @@ void generate(sim::Rng &r, uint64_t seed, const std::string &tier, sim::Plan &p)
     else {
       long kind;
       unsigned y = (unsigned)r.below(100);
-      if (y < 30) kind = r.range(0, 2); else if (y < 42) kind = r.range(3, 6); else kind = r.range(7, 17);
+      if (y < 30) kind = r.range(0, 2); else if (y < 42) kind = r.range(3, 6); else kind = r.range(7, 19);
       op.kind = "reply"; op.a = {dt, (long)r.below((uint64_t)made), kind, (long)r.below(80), r.range(0, 4)};
     }
     p.ops.push_back(op);
@@ -119,7 +120,7 @@ std::vector<uint8_t> craft(const Lookup &l, long kind, long arg, long nrec, uint
   put16(b, id); put16(b, flags);
   if (kind == 12) { sim::Rng rr((uint64_t)serial); long n = 4 + arg; for (long i = 0; i < n; ++i) b.push_back((uint8_t)rr.below(256)); return b; }
   long an = std::max(0L, std::min(4L, nrec));
-  long an_field = an + (kind == 1 ? 1 : 0) + (kind == 2 ? 1 : 0);
+  long an_field = an + (kind == 1 ? 1 : 0) + (kind == 2 ? 1 : 0) + (kind == 18 ? 1 : 0) + (kind == 19 ? 1 : 0);
   if (kind == 8) an_field = 200 + arg;
   put16(b, 1); put16(b, (unsigned)an_field); put16(b, 0); put16(b, 0);
   size_t qname_off = b.size();
@@ -148,13 +149,15 @@ std::vector<uint8_t> craft(const Lookup &l, long kind, long arg, long nrec, uint
   }
   if (kind == 1) { name_ptr(qname_off); put16(b, 5); put16(b, 1); put32(b, serial); std::vector<uint8_t> cn; put_name(cn, "alias" + std::to_string(arg) + ".example.org"); put16(b, (unsigned)cn.size()); b.insert(b.end(), cn.begin(), cn.end()); }
   if (kind == 2) { name_ptr(qname_off); put16(b, 16); put16(b, 1); put32(b, serial); put16(b, 5); for (int i = 0; i < 5; ++i) b.push_back((uint8_t)('t' + i)); }
-  if (kind <= 2 || kind == 7 || kind == 8 || kind == 14 || kind == 13) {
+  if (kind == 19) { name_ptr(qname_off); put16(b, 1); put16(b, 1); put32(b, serial); long n = 5 + arg % 4; put16(b, (unsigned)n); for (long i = 0; i < n; ++i) b.push_back((uint8_t)(77 + i)); }   // an A record that is too long, before the good ones
+  if (kind <= 2 || kind == 7 || kind == 8 || kind == 14 || kind == 13 || kind == 18 || kind == 19) {
     for (long i = 0; i < an; ++i) {
       if (i % 2 == 0) name_ptr(qname_off); else put_name(b, l.domain);
       put16(b, 1); put16(b, 1); put32(b, serial); put16(b, 4);
       b.push_back(10); b.push_back((uint8_t)(arg & 0xff)); b.push_back((uint8_t)i); b.push_back((uint8_t)(serial & 0xff));
     }
   }
+  if (kind == 18) { name_ptr(qname_off); put16(b, 1); put16(b, 1); put32(b, serial); long n = arg % 4; put16(b, (unsigned)n); for (long i = 0; i < n; ++i) b.push_back((uint8_t)(66)); }   // a short A record (0-3 bytes of address) ends the datagram
   if (kind == 7 && !b.empty()) b.resize((size_t)std::min<long>((long)b.size(), 4 + arg % (long)b.size()));
   return b;
 }
@@ -276,7 +279,7 @@ void execute(const sim::Plan &plan) {
         if (W.lk.empty()) return;
         Lookup &L = W.lk[(size_t)(std::max(0L, op->arg(1)) % (long)W.lk.size())];
         uint32_t serial = ++W.serial;
-        std::vector<uint8_t> b = craft(L, ((op->arg(2) % 18) + 18) % 18, std::max(0L, op->arg(3)), op->arg(4), serial);
+        std::vector<uint8_t> b = craft(L, ((op->arg(2) % 20) + 20) % 20, std::max(0L, op->arg(3)), op->arg(4), serial);
         W.sent.push_back(Sent{serial, b});
         sim::trace("reply kind=%ld serial=%u len=%zu", op->arg(2), serial, b.size());
         sim::relevant();
